@@ -124,11 +124,34 @@ func runOne(w *World, id, tier, root string, seed int, start time.Time) (code in
 				code = c.Finish(seed)
 				return
 			}
-			fmt.Printf("BROKEN-CHECK: property=%s analyser panic: %v\n%s\n", id, r, debug.Stack())
-			code = 2
+			// A rule met a construct it cannot interpret (its own bug or a rewrite beyond what it models).
+			// Like a missing anchor this leaves the rule's clause undecided on this tree: reported as an
+			// undischarged obligation (exit 1), with the stack so that the analyser can be repaired.
+			last := ""
+			if n := len(c.Rules); n > 0 {
+				last = c.Rules[n-1].ID
+			}
+			stack := string(debug.Stack())
+			fmt.Printf("ANALYSER-ERROR: property=%s while evaluating %s: %v\n%s\n", id, last, r, stack)
+			func() {
+				defer func() {
+					if r2 := recover(); r2 != nil {
+						fmt.Printf("BROKEN-CHECK: property=%s analyser panic: %v (and while reporting it: %v)\n", id, r, r2)
+						code = 2
+					}
+				}()
+				rr := c.Rule("UNDECIDED", "analyser", 0, "every rule of this property could be evaluated on this tree",
+					"a rule that cannot interpret the code it is anchored on decides nothing: its clause is not established on this tree")
+				rr.Check(false, nil, "rule "+last+" evaluated", nil, fmt.Sprintf("the analysis of %s failed on this tree (%v): the code it examines was rewritten into a form the rule does not model; its clause and the rules after it are undecided", last, r))
+				code = c.Finish(seed)
+			}()
 		}
 	}()
 	props[id].Run(c)
+	if os.Getenv("BVERIF_SELFTEST_PANIC") == id {
+		var np *Check
+		_ = np.Prop // exercises the ANALYSER-ERROR path (tools/selftest and DESIGN §13)
+	}
 	if tier == "thorough" {
 		c.thoroughExtras()
 		// second pass on the GOARCH=386 build of the tree (other build-tagged files, 32-bit sizes)
